@@ -6,4 +6,4 @@ import (
 	"verif/internal/harness"
 )
 
-func TestProps(t *testing.T) { harness.Main(t, "C06", History, Concurrent) }
+func TestProps(t *testing.T) { harness.Main(t, "C06", History, Concurrent, CrossCheck) }
